@@ -183,3 +183,30 @@ PROPS["C15"] = dict(
         technique="property-based testing (rapid) over call histories with a metamorphic fresh-render oracle",
     ),
 )
+
+PROPS["C06"] = dict(
+    pkg="c06",
+    level="exploration",
+    rule=("(Prop) ActivityStreams-shaped JSON (posts, actors, activities, collections, links, odd types; embedded sub-objects) filled "
+          "from benign or hostile string sources, bodies in the four media types from tag-soup / Markdown / gemtext / plain grammars, "
+          "then a corruption pass replacing fields by wrong-typed, absurd or 10..200-deep junk values; (Deep) bodies nesting 8..120 "
+          "block/inline elements around small and 2 KB payloads. For the item and everything reachable from it (parents, children, "
+          "creators, recipients, actor, target): String/Preview at widths from -10 to 200, Name, Timestamp, Parents(q), "
+          "Children().Harvest(q,s), Media/ProfilePic/Banner, SelectLink(n) for n in {min int,-1,0,1,2,3,5,10,1000,max int}. Oracle: "
+          "returns normally (panics caught), within 20 s per case, producing < 64 MiB. Non-trivial: at least one corruption, nesting "
+          "depth >= 8, or a width <= 2. Distinct = distinct (JSON text, widths)."),
+    units=[
+        rapid("Prop", "TestProp", 12000, 400000, timeout=dict(quick=600, thorough=3000)),
+        rapid("Deep", "TestDeep", 1200, 40000, timeout=dict(quick=600, thorough=3000)),
+        fuzz("Fuzz", "FuzzRender", "180s"),
+    ],
+    manifest=dict(
+        text=("Robustness property test: generated and corrupted documents are built and every Tangible method is exercised under a "
+              "watchdog; thorough adds coverage-guided fuzzing of raw bodies in all four media types. Crash-freedom and a generous "
+              "time/size budget are the oracle; content correctness is left to C01/C12/C14/C15. Sampled."),
+        design_ref="DESIGN.md §3 C06",
+        note=("Trusted: the 20 s / 64 MiB budget as a proxy for 'promptly' and 'does not exhaust memory'. One open finding "
+              "(deep-nesting-cost) is excluded by construction and counted."),
+        technique="property-based robustness testing (rapid) with corruption pass + native go fuzzing, watchdog oracle",
+    ),
+)
